@@ -131,7 +131,15 @@ void checkOrder(Ctx &c, const KnotCase &kc) {
         break;
       }
       case 1: {
-        callerGrid.emplace(mkVec<T>(kc.distinct));
+        std::vector<T> gp = mkVec<T>(kc.distinct);
+        // the caller's grid may spell a zero point as -0.0: the same number
+        if constexpr (!ST<T>::exact)
+          for (auto &x : gp)
+            if (x == 0) {
+              x = -x;
+              c.count("supplied-grid:negative-zero");
+            }
+        callerGrid.emplace(gp);
         BSplineGenerator<T> gen(knots, *callerGrid);
         res = gen.template generateBSplines<p>();
         break;
